@@ -17,6 +17,10 @@ type Conn struct {
 	out    []byte
 	closed bool
 	writes int
+	// AtEOF is called once, when the scripted input is used up and before the first io.EOF is returned:
+	// the moment the peer hangs up is the environment's choice (a scheduling point)
+	AtEOF   func()
+	eofSeen bool
 }
 
 // NewConn: the output sink has a fixed capacity so that Write never reallocates (the runtime's slice
@@ -31,6 +35,13 @@ func (c *Conn) Read(b []byte) (int, error) {
 		return 0, net.ErrClosed
 	}
 	if c.rpos >= len(c.in) {
+		if !c.eofSeen && c.AtEOF != nil {
+			c.eofSeen = true
+			c.AtEOF()
+			if c.closed {
+				return 0, net.ErrClosed
+			}
+		}
 		return 0, io.EOF
 	}
 	n := copy(b, c.in[c.rpos:])
